@@ -17,6 +17,9 @@ pub enum Ev {
     /// 2 = new threshold (current+1), 3 = api_access off then on again afterwards
     Upgrade { cfg: u8 },
     SetThreshold(u32),
+    /// `len` announced headers chained on the block with id `on`. The first one is the
+    /// header of the block that `Block { parent: on, diff: 1, body: 0 }` would create next.
+    Hdr { on: usize, len: u8 },
 }
 
 pub const BODY_CB: u8 = 0;
@@ -27,6 +30,9 @@ pub const BODY_SHARED: u8 = 4;
 pub const BODY_COLLIDE: u8 = 5;
 pub const BODY_SPEND_OLD: u8 = 6;
 pub const BODY_MULTI: u8 = 7;
+pub const BODY_FEE_SEGWIT: u8 = 8;
+pub const BODY_FEE_PAIR: u8 = 9;
+pub const BODY_FEE_ZERO: u8 = 10;
 
 pub fn body_name(b: u8) -> &'static str {
     match b {
@@ -38,6 +44,9 @@ pub fn body_name(b: u8) -> &'static str {
         BODY_COLLIDE => "outputs to colliding p2wpkh/p2wsh pair",
         BODY_SPEND_OLD => "spend oldest book output -> G",
         BODY_MULTI => "coinbase with 3 outputs to A + spend two oldest A outputs -> A,B",
+        BODY_FEE_SEGWIT => "coinbase 3xA + segwit spend of oldest A output paying fee 1000",
+        BODY_FEE_PAIR => "coinbase A + legacy spend (fee 7) + segwit spend (fee 250000)",
+        BODY_FEE_ZERO => "coinbase A + spend with fee 0",
         _ => "?",
     }
 }
@@ -159,6 +168,41 @@ pub fn build_body(w: &World, parent: &H32, body: u8, id: usize) -> Option<Vec<Tr
             );
             Some(vec![cb, t])
         }
+        BODY_FEE_SEGWIT => {
+            let src = of(book.script(A).as_bytes());
+            let cb = coinbase_tx(
+                salt,
+                vec![
+                    (1_000_000 + val, book.script(A)),
+                    (2_000_000 + val, book.script(A)),
+                    (3_000_000 + val, book.script(A)),
+                ],
+            );
+            let mut txs = vec![cb];
+            if let Some((k, v, _)) = src.iter().find(|x| x.1 > 1000) {
+                txs.push(spend_tx(&[*k], vec![(*v - 1000, book.script(B))], 2, 0x81));
+            }
+            Some(txs)
+        }
+        BODY_FEE_PAIR => {
+            let src: Vec<_> = of(book.script(A).as_bytes()).into_iter().filter(|x| x.1 > 250_000).collect();
+            let mut txs = vec![cb_a()];
+            if let Some((k, v, _)) = src.first() {
+                txs.push(spend_tx(&[*k], vec![(*v - 7, book.script(C))], 0, 0x91));
+            }
+            if let Some((k, v, _)) = src.get(1) {
+                txs.push(spend_tx(&[*k], vec![(*v - 250_000, book.script(D)), (0, op_return())], 1, 0x92));
+            }
+            Some(txs)
+        }
+        BODY_FEE_ZERO => {
+            let src = of(book.script(A).as_bytes());
+            let mut txs = vec![cb_a()];
+            if let Some((k, v, _)) = src.last() {
+                txs.push(spend_tx(&[*k], vec![(*v, book.script(E))], 0, 0xa1));
+            }
+            Some(txs)
+        }
         _ => None,
     }
 }
@@ -185,6 +229,7 @@ pub enum Applied {
     Ingest(Ingested),
     Upgraded,
     ConfigSet,
+    HeadersAnnounced,
     Trap(String),
 }
 
@@ -238,6 +283,45 @@ pub fn apply_ev(w: &mut World, ev: &Ev) -> Applied {
             Ok(()) => Applied::ConfigSet,
             Err(p) => Applied::Trap(p),
         },
+        Ev::Hdr { on, len } => {
+            let Some(first) = build_block(w, *on, BODY_CB) else {
+                return Applied::NotApplicable;
+            };
+            let mut headers = vec![first.header];
+            for k in 1..*len {
+                let prev = *headers.last().unwrap();
+                let txs = vec![coinbase_tx(7000 + k as u64 + 100 * w.ids.len() as u64, vec![(1, w.book.script(G))])];
+                let mut h = factory::make_header(prev.block_hash(), prev.time + 600, REGTEST_BITS, &txs);
+                if w.net() == Network::Regtest {
+                    factory::mine(&mut h);
+                }
+                headers.push(h);
+            }
+            let blobs: Vec<ic_btc_canister::types::BlockHeaderBlob> = headers
+                .iter()
+                .map(|h| crate::world::header_blob(factory::header_bytes(h)))
+                .collect();
+            let r = crate::util::guarded(|| {
+                ic_btc_canister::with_state_mut(|s| {
+                    ic_btc_canister::state::insert_next_block_headers(s, &blobs)
+                })
+            });
+            if let Err(p) = r {
+                return Applied::Trap(p);
+            }
+            let base_h = w.refm.get(&w.ids[*on]).height;
+            for (k, h) in headers.iter().enumerate() {
+                w.announced.push(crate::world::Announced {
+                    hash: factory::hash_of(h),
+                    prev: {
+                        use bitcoin::hashes::Hash;
+                        h.prev_blockhash.to_byte_array()
+                    },
+                    height: base_h + 1 + k as u32,
+                });
+            }
+            Applied::HeadersAnnounced
+        }
     }
 }
 
@@ -262,6 +346,9 @@ pub struct Alphabet {
     pub max_threshold_changes: usize,
     /// offer an ingestion opportunity even when nothing can be ingested (a no-op)
     pub noop_ingest: bool,
+    /// lengths of announced-header chains offered (on every live block)
+    pub hdr_lens: Vec<u8>,
+    pub max_hdr_events: usize,
 }
 
 impl Alphabet {
@@ -277,6 +364,8 @@ impl Alphabet {
             thresholds: vec![],
             max_threshold_changes: 0,
             noop_ingest: false,
+            hdr_lens: vec![],
+            max_hdr_events: 0,
         }
     }
 
@@ -344,6 +433,14 @@ impl Alphabet {
             for t in &self.thresholds {
                 if *t != cur {
                     evs.push(Ev::SetThreshold(*t));
+                }
+            }
+        }
+        let hdrs = hist.iter().filter(|e| matches!(e, Ev::Hdr { .. })).count();
+        if !ingesting && hdrs < self.max_hdr_events {
+            for p in live_ids(w) {
+                for l in &self.hdr_lens {
+                    evs.push(Ev::Hdr { on: p, len: *l });
                 }
             }
         }
@@ -510,7 +607,8 @@ impl<O: Oracle> Model for ChainModel<O> {
             .filter(|e| matches!(e, Ev::Block { body, .. } if *body != BODY_CB))
             .count() as u8;
         let ups = hist.iter().filter(|e| matches!(e, Ev::Upgrade { .. })).count() as u8;
-        let tcs = hist.iter().filter(|e| matches!(e, Ev::SetThreshold(_))).count() as u8;
+        let tcs = hist.iter().filter(|e| matches!(e, Ev::SetThreshold(_))).count() as u8
+            + 16 * hist.iter().filter(|e| matches!(e, Ev::Hdr { .. })).count() as u8;
         let last_ingest_complete = matches!(
             s.last,
             Some(Applied::Ingest(Ingested::DoneWork)) | Some(Applied::Ingest(Ingested::Nothing))
@@ -523,6 +621,9 @@ impl<O: Oracle> Model for ChainModel<O> {
             b.extend(s.w.ids[1]);
         }
         b.extend(self.oracle.mon_digest(&s.mon).to_le_bytes());
+        for a in &s.w.announced {
+            b.extend(a.hash);
+        }
         let h = crate::util::sha256(&b);
         Some(u128::from_le_bytes(h[..16].try_into().unwrap()))
     }
